@@ -69,11 +69,11 @@ def impl_merge(pred, ref, mname, thr):
 def fragments(rng):
     """references covered by several prediction fragments, some of which should be rejected"""
     nd = rng.choice([1, 2])
-    shape = (1, rng.randint(10, 24)) if nd == 1 else (rng.randint(3, 5), rng.randint(8, 14))
+    shape = (1, rng.randint(14, 40)) if nd == 1 else (rng.randint(3, 5), rng.randint(10, 22))
     ref = np.zeros(shape, np.uint8)
     pred = np.zeros(shape, np.uint8)
     w = shape[-1]
-    nref = rng.randint(1, 3)
+    nref = rng.randint(1, 2) if rng.random() < 0.6 else 3
     cuts = sorted(rng.sample(range(1, w), min(w - 1, 2 * nref)))
     lab = 0
     plab = 0
@@ -84,7 +84,7 @@ def fragments(rng):
         # fragments: split [a-ext, b+ext) into k pieces
         lo = max(0, a - rng.choice([0, 0, 1, 3, 6]))
         hi = min(w, b + rng.choice([0, 0, 1, 3, 6]))
-        k = rng.randint(1, 4)
+        k = rng.randint(1, 6)
         pts = sorted(set([lo, hi] + [rng.randint(lo, hi) for _ in range(k - 1)]))
         for x, y in zip(pts, pts[1:]):
             if rng.random() < 0.85 and y > x:
@@ -92,6 +92,37 @@ def fragments(rng):
                 pred[..., x:y] = plab
                 if nd == 2 and rng.random() < 0.4:
                     pred[0, x:y] = 0
+    return pred, ref
+
+
+def fragments2(rng):
+    """one or two references, each partitioned into 3-6 prediction fragments; some fragments carry extra mass outside the
+    reference (they should be rejected) -- gives accept / reject / accept sequences on one reference"""
+    w = rng.randint(40, 90)
+    ref = np.zeros((1, w), np.uint8)
+    pred = np.zeros((1, w), np.uint8)
+    lab = 0
+    pos = rng.randint(0, 3)
+    outside = list(range(w))
+    for r in range(1, rng.randint(1, 2) + 1):
+        length = rng.randint(8, 20)
+        if pos + length >= w - 10:
+            break
+        ref[0, pos:pos + length] = r
+        k = rng.randint(3, 6)
+        cuts = sorted(set([pos, pos + length] + [rng.randint(pos + 1, pos + length - 1) for _ in range(k - 1)]))
+        for a, b in zip(cuts, cuts[1:]):
+            lab += 1
+            pred[0, a:b] = lab
+        pos += length + rng.randint(1, 3)
+    free = [i for i in range(pos, w)]
+    rng.shuffle(free)
+    for l in range(1, lab + 1):
+        if rng.random() < 0.45 and free:
+            extra = rng.randint(1, max(1, len(free) // 3))
+            for i in free[:extra]:
+                pred[0, i] = l
+            free = free[extra:]
     return pred, ref
 
 
@@ -103,8 +134,8 @@ def run(ctx):
     r = np.zeros((1, 40), np.uint8); r[0, 0:8] = 1
     p = np.zeros((1, 40), np.uint8); p[0, 0:7] = 1; p[0, 7:40] = 2
     cases.append((p, r, "ASSD", 5.0))
-    for _ in range(ctx.scale(250, 3000)):
-        pred, ref = fragments(rng)
+    for it in range(ctx.scale(300, 3000)):
+        pred, ref = fragments(rng) if it % 2 == 0 else fragments2(rng)
         if not pred.any() or not ref.any():
             continue
         mname = rng.choice(["IOU", "DSC", "ASSD"])
@@ -143,6 +174,24 @@ def run(ctx):
                     bad.append(f"prediction {pnew} merged into reference {rr} although the score did not strictly improve ({cur[rr]} -> {new})")
                 cur[rr] = new
                 members[rr] = plist
+        # independent replay (no use of the logged scores): walk the candidates best-first; every assigned fragment after the
+        # seed must strictly improve the TRUE combined score of the fragments assigned so far
+        members2 = {}
+        true_cur = {}
+        for s_, rr, pp in cands:
+            if mp.get(pp) != rr:
+                continue
+            if rr not in members2:
+                members2[rr] = [pp]
+                true_cur[rr] = s_
+                continue
+            with np.errstate(all="ignore"):
+                new_true = float(impl.metric(mname)(ref, pred, rr, members2[rr] + [pp]))
+            if not strictly_better(decr, new_true, true_cur[rr]):
+                bad.append(f"prediction {pp} merged into reference {rr} although the combined score did not strictly improve "
+                           f"({true_cur[rr]} -> {new_true} for labels {members2[rr] + [pp]})")
+            members2[rr].append(pp)
+            true_cur[rr] = new_true
         for rr, ps in groups.items():
             singles = [single[(rr, pp)] for pp in ps if (rr, pp) in single]
             ok_seed = [s for s in singles if beats(decr, s, thr)]
